@@ -8,6 +8,7 @@ import (
 	"sync/atomic"
 	"testing"
 
+	"verifsim/gen"
 	"verifsim/store"
 )
 
@@ -251,6 +252,11 @@ func faultMain(x *X) {
 		}
 	}
 
+	if o.LoopAtCancel >= 0 && o.Err == "" && o.Created && !o.Fallback && o.LoopAtEnd-o.LoopAtCancel >= 3 {
+		// Exec looks at its context at the top of every pass of its loop: after a Cancel()/Close()
+		// that returned while it was running it may finish the pass it is in, not three more
+		x.Viol("C14", "cancel-ignored", "cancel-ignored-by-exec|"+path, fmt.Sprintf("%s: Cancel()/Close() returned while Exec was running; Exec went through %d more passes of its loop and returned a successful result", op.Q, o.LoopAtEnd-o.LoopAtCancel))
+	}
 	if o.Acct != nil && len(o.Acct.LiveAfterCancel) > 0 {
 		x.Viol("C14", "cancel-ignored", "cancel-ignored|"+path, fmt.Sprintf("%s: Cancel()/Close() returned while Exec was running, yet storage callbacks %v still ran with a live context: the cancellation did not reach the query", op.Q, o.Acct.LiveAfterCancel))
 	}
@@ -344,6 +350,19 @@ func errClass(e string) string {
 // GenFault draws a query, probes it with a dry run, and places faults inside it.
 func GenFault(t *testing.T, r *rand.Rand, prop, tier string, progress *atomic.Int64) *Case {
 	w, q, data, el, ql, _ := GenQuery(r, []string{"compose", "compose", "aggr", "binary", "func", "rangefn"}[r.Intn(6)], 0, 0.25)
+	selectorless := false
+	if prop == "C14" && r.Intn(12) == 0 && w.Step > 0 {
+		// a query that never touches the storage: only Exec itself can notice a cancellation
+		g := &gen.G{R: r, P: gen.ProfileFor("func"), Start: w.Start, End: w.End, Step: w.Step}
+		q = []string{"time()", "(time())", "+time()", "vector(time())", "time() + 1", "pi() * time()", "-vector(1)"}[r.Intn(7)]
+		if r.Intn(3) == 0 {
+			q = g.Scalar(2)
+		}
+		if w.Steps() < 25 {
+			w.End = w.Start + int64(25+r.Intn(40))*w.Step
+		}
+		selectorless = true
+	}
 	op := Op{Q: q, Start: w.Start, End: w.End, Step: w.Step, QLookbackMs: ql, Shards: 1 + r.Intn(4),
 		Eng: Eng{LookbackMs: el, Optim: []string{"default", "none", "all"}[r.Intn(3)]}, WrapMode: []int{0, 0, 2}[r.Intn(3)]}
 	c := &Case{Prop: prop, Scen: "fault", Data: data, Ops: []Op{op}, Sched: Sched{Strategy: pickStrategy(r), Seed: r.Int63()}, Store: drawStore(r)}
@@ -365,6 +384,16 @@ func GenFault(t *testing.T, r *rand.Rand, prop, tier string, progress *atomic.In
 	probe.Sched = Sched{Strategy: "first"}
 	pr := RunCase(t, probe, progress, false)
 	d := pr.Dry
+	if selectorless && d != nil && !d.Failed {
+		o := &c.Ops[0]
+		steps := d.End - d.Start
+		if steps < 2 {
+			steps = 2
+		}
+		o.ClientCancelStep = d.Start + 1 + r.Intn(steps)
+		o.ClientClose = r.Intn(3) == 0
+		return c
+	}
 	if d == nil || d.N == 0 || d.Failed {
 		// nothing to inject into (no storage interaction, or the query fails by itself)
 		if prop != "C17" {
